@@ -391,7 +391,8 @@ impl MetadataBlockData {
     /// assert_eq!(&[0x34, 0x56], sink.as_slice());
     /// ```
     pub fn new_unknown(tag: u8, data: &[u8]) -> Result<Self, VerifyError> {
-        verify_range!("tag", tag, 0..=126)?;
+        // 0 is STREAMINFO (a block of that type is not opaque data) and 127 is forbidden.
+        verify_range!("tag", tag, 1..=126)?;
         // the length field of a metadata block header has 24 bits.
         verify_range!("data.len", data.len(), ..(1usize << 24))?;
         Ok(Self::Unknown {
